@@ -466,9 +466,9 @@ type varDef struct {
 	start token.Pos // start of the defining statement
 	stmt  ast.Node  // the defining statement
 	pos   token.Pos // end of the defining statement (range: position of the range statement)
-	rhs   ast.Expr // nil for range / unknown
-	index int      // index into a tuple-valued rhs, -1 when rhs is the value itself
-	rng   ast.Expr // range expression when defined by range
+	rhs   ast.Expr  // nil for range / unknown
+	index int       // index into a tuple-valued rhs, -1 when rhs is the value itself
+	rng   ast.Expr  // range expression when defined by range
 	isKey bool
 }
 
@@ -524,10 +524,10 @@ func defsOfVarWithIndex(f *FuncInfo, v *types.Var) []varDef {
 			}
 		case *ast.RangeStmt:
 			if id, ok := s.Key.(*ast.Ident); ok && (info.Defs[id] == v || info.Uses[id] == v) {
-				out = append(out, varDef{stmt: s, start: s.Pos(), pos: s.Pos()+1, rng: s.X, isKey: true})
+				out = append(out, varDef{stmt: s, start: s.Pos(), pos: s.Pos() + 1, rng: s.X, isKey: true})
 			}
 			if id, ok := s.Value.(*ast.Ident); ok && (info.Defs[id] == v || info.Uses[id] == v) {
-				out = append(out, varDef{stmt: s, start: s.Pos(), pos: s.Pos()+1, rng: s.X})
+				out = append(out, varDef{stmt: s, start: s.Pos(), pos: s.Pos() + 1, rng: s.X})
 			}
 		case *ast.IncDecStmt:
 			if id, ok := ast.Unparen(s.X).(*ast.Ident); ok && info.Uses[id] == v {
